@@ -25,7 +25,9 @@ type Frame struct {
 	loops   []*Loop
 	loopOf  map[*ssa.BasicBlock]*Loop // header -> loop
 	out     map[*ssa.BasicBlock]*State
-	edge    map[[2]int]*Term // (from,to) -> edge condition (full: reach of from ∧ branch cond)
+	ins     map[*ssa.BasicBlock][]inEdge
+	order   []*ssa.BasicBlock
+	unrolling []*Loop
 	defers  []deferRec
 	rets    []retRec
 	spec    *Block
@@ -65,6 +67,9 @@ type Loop struct {
 	wc    *writeConstraint
 	entryPhi map[*ssa.Phi]Val
 	entryPhiTmp map[*ssa.Phi]Val
+	unrolling bool
+	backRecs  []inEdge
+	liveOut   []ssa.Value
 }
 
 func (fr *Frame) pos(i ssa.Instruction) token.Position {
@@ -173,7 +178,7 @@ func funcKey(fn *ssa.Function) string {
 
 func (fc *FnCtx) newFrame(fn *ssa.Function, parent *Frame, path string) *Frame {
 	fr := &Frame{fc: fc, fn: fn, env: map[ssa.Value]Val{}, path: path, parent: parent,
-		out: map[*ssa.BasicBlock]*State{}, edge: map[[2]int]*Term{}, loopOf: map[*ssa.BasicBlock]*Loop{},
+		out: map[*ssa.BasicBlock]*State{}, ins: map[*ssa.BasicBlock][]inEdge{}, loopOf: map[*ssa.BasicBlock]*Loop{},
 		nonnil: map[string]*ssa.BasicBlock{}, freeBind: map[*ssa.FreeVar]Val{}, closures: map[ssa.Value]*ssa.MakeClosure{},
 		rangeKeySort: map[ssa.Value]Sort{}}
 	if parent != nil {
@@ -193,6 +198,14 @@ func (fc *FnCtx) newFrame(fn *ssa.Function, parent *Frame, path string) *Frame {
 	return fr
 }
 
+type inEdge struct {
+	from *ssa.BasicBlock
+	cond *Term
+	st   *State
+	phis map[*ssa.Phi]Val
+	snap map[ssa.Value]Val
+}
+
 // run executes the body from state st0 with the given parameter values; returns merged exit state
 // and results.
 func (fr *Frame) run(st0 *State, params []Val) (*State, []Val) {
@@ -205,47 +218,8 @@ func (fr *Frame) run(st0 *State, params []Val) (*State, []Val) {
 		fr.env[p] = params[i]
 	}
 	fr.entry = st0.clone()
-	order := rpo(fn)
-	for _, b := range order {
-		// entry state
-		var st *State
-		if b.Index == 0 {
-			st = st0.clone()
-		} else {
-			var ins []*State
-			var conds []*Term
-			for _, p := range b.Preds {
-				if p.Dominates(b) || !b.Dominates(p) { // forward edge (not a back edge)
-					if b.Dominates(p) && p != b && false {
-						continue
-					}
-				}
-				if b.Dominates(p) { // back edge p -> b
-					continue
-				}
-				ps, ok := fr.out[p]
-				if !ok {
-					continue // unreachable predecessor (e.g. after panic)
-				}
-				c := fr.edge[[2]int{p.Index, b.Index}]
-				if c == nil {
-					continue
-				}
-				ins = append(ins, ps)
-				conds = append(conds, c)
-			}
-			if len(ins) == 0 {
-				continue // unreachable block
-			}
-			// phi values are computed against the incoming edges
-			st = fc.merge(ins, conds)
-			fr.evalPhis(b, conds, func(p *ssa.BasicBlock) bool { return !b.Dominates(p) }, st)
-		}
-		if l := fr.loopOf[b]; l != nil {
-			fr.loopHead(l, st)
-		}
-		fr.execBlock(b, st)
-	}
+	fr.order = rpo(fn)
+	fr.execBlockList(fr.order, fn.Blocks[0], st0.clone(), nil)
 	// merge returns
 	if len(fr.rets) == 0 {
 		// function never returns normally
@@ -281,19 +255,89 @@ func (fr *Frame) run(st0 *State, params []Val) (*State, []Val) {
 	return exit, res
 }
 
-func (fr *Frame) nameVal(prefix string, v Val) Val {
-	if v.T != nil {
-		return scalar(fr.fc.sc.Define(prefix, v.T))
+// execBlockList executes the given blocks (in reverse post-order). `first` receives firstState directly
+// (function entry, or the header of a loop being unrolled); every other block starts from the merge of
+// its recorded incoming edges. cur is the loop currently being unrolled (nil at top level).
+func (fr *Frame) execBlockList(blocks []*ssa.BasicBlock, first *ssa.BasicBlock, firstState *State, cur *Loop) {
+	skip := map[*ssa.BasicBlock]bool{}
+	for _, b := range blocks {
+		if skip[b] {
+			continue
+		}
+		var st *State
+		if b == first {
+			st = firstState
+		} else {
+			st = fr.blockEntry(b)
+			if st == nil {
+				continue // unreachable
+			}
+		}
+		if l := fr.loopOf[b]; l != nil && l != cur {
+			if fr.unrollMode(l) {
+				fr.unrollLoop(l, st)
+				for x := range l.blocks {
+					skip[x] = true
+				}
+				continue
+			}
+			fr.loopHead(l, st)
+		}
+		fr.execBlock(b, st)
 	}
-	out := Val{Fs: make([]Val, len(v.Fs))}
-	for i, f := range v.Fs {
-		out.Fs[i] = fr.nameVal(prefix, f)
-	}
-	return out
 }
 
-// evalPhis assigns the phi nodes of block b from the incoming edges selected by `use`.
-func (fr *Frame) evalPhis(b *ssa.BasicBlock, conds []*Term, use func(p *ssa.BasicBlock) bool, st *State) {
+// blockEntry merges the recorded incoming edges of b; nil if none is reachable.
+func (fr *Frame) blockEntry(b *ssa.BasicBlock) *State {
+	fc := fr.fc
+	var recs []inEdge
+	for _, r := range fr.ins[b] {
+		if r.cond.S == "false" {
+			continue
+		}
+		recs = append(recs, r)
+	}
+	if len(recs) == 0 {
+		return nil
+	}
+	var sts []*State
+	var conds []*Term
+	for _, r := range recs {
+		sts = append(sts, r.st)
+		conds = append(conds, r.cond)
+	}
+	st := fc.merge(sts, conds)
+	fr.assignPhis(b, recs)
+	// values defined inside an unrolled loop and used after it
+	snapVals := map[ssa.Value]bool{}
+	for _, r := range recs {
+		for v := range r.snap {
+			snapVals[v] = true
+		}
+	}
+	for v := range snapVals {
+		var curv *Val
+		for i := len(recs) - 1; i >= 0; i-- {
+			x, ok := recs[i].snap[v]
+			if !ok {
+				continue
+			}
+			if curv == nil {
+				y := x
+				curv = &y
+			} else {
+				y := iteVal(recs[i].cond, x, *curv)
+				curv = &y
+			}
+		}
+		if curv != nil {
+			fr.env[v] = fr.nameVal(v.Name(), *curv)
+		}
+	}
+	return st
+}
+
+func (fr *Frame) assignPhis(b *ssa.BasicBlock, recs []inEdge) {
 	for _, in := range b.Instrs {
 		phi, ok := in.(*ssa.Phi)
 		if !ok {
@@ -303,41 +347,153 @@ func (fr *Frame) evalPhis(b *ssa.BasicBlock, conds []*Term, use func(p *ssa.Basi
 			break
 		}
 		var cur *Val
-		k := len(conds) - 1
-		// iterate preds in reverse so that the ite chain ends with the last one unconditioned
-		type pe struct {
-			v Val
-			c *Term
-		}
-		var pes []pe
-		ci := 0
-		for i, p := range b.Preds {
-			if !use(p) {
+		for i := len(recs) - 1; i >= 0; i-- {
+			x, ok := recs[i].phis[phi]
+			if !ok {
 				continue
 			}
-			if _, ok := fr.out[p]; !ok {
-				continue
-			}
-			if fr.edge[[2]int{p.Index, b.Index}] == nil {
-				continue
-			}
-			pes = append(pes, pe{fr.val(phi.Edges[i]), conds[ci]})
-			ci++
-		}
-		_ = k
-		for i := len(pes) - 1; i >= 0; i-- {
 			if cur == nil {
-				v := pes[i].v
-				cur = &v
+				y := x
+				cur = &y
 			} else {
-				v := iteVal(pes[i].c, pes[i].v, *cur)
-				cur = &v
+				y := iteVal(recs[i].cond, x, *cur)
+				cur = &y
 			}
 		}
 		if cur != nil {
 			fr.env[phi] = fr.nameVal(phiName(phi), *cur)
+		} else {
+			delete(fr.env, phi)
 		}
 	}
+}
+
+// phiInputs computes the values the phis of `to` receive along the edge from -> to.
+func (fr *Frame) phiInputs(from, to *ssa.BasicBlock) map[*ssa.Phi]Val {
+	idx := -1
+	for i, p := range to.Preds {
+		if p == from {
+			idx = i
+			break
+		}
+	}
+	out := map[*ssa.Phi]Val{}
+	if idx < 0 {
+		return out
+	}
+	for _, in := range to.Instrs {
+		phi, ok := in.(*ssa.Phi)
+		if !ok {
+			if _, isDbg := in.(*ssa.DebugRef); isDbg {
+				continue
+			}
+			break
+		}
+		e := phi.Edges[idx]
+		if _, have := fr.env[e]; !have {
+			switch e.(type) {
+			case *ssa.Const, *ssa.Global, *ssa.Function, *ssa.FreeVar:
+			default:
+				continue // value not available (defined on an unreachable path)
+			}
+		}
+		out[phi] = fr.val(e)
+	}
+	return out
+}
+
+const maxUnroll = 12
+
+// unrollMode: loops without an invariant in inlined callees (or marked `unroll`) are executed iteration by
+// iteration; the proof obligation is that the loop has exited after the last unrolled iteration.
+func (fr *Frame) unrollMode(l *Loop) bool {
+	if l.spec != nil {
+		if len(l.spec.ClausesOf("unroll")) > 0 {
+			return true
+		}
+		return false
+	}
+	return fr.depth > 0 || fr.fc.unrollTop
+}
+
+func (fr *Frame) unrollLoop(l *Loop, st *State) {
+	fc := fr.fc
+	var iter []*ssa.BasicBlock
+	for _, b := range fr.order {
+		if l.blocks[b] {
+			iter = append(iter, b)
+		}
+	}
+	// live-out: values defined in the loop and used outside it
+	l.liveOut = nil
+	for b := range l.blocks {
+		for _, in := range b.Instrs {
+			v, ok := in.(ssa.Value)
+			if !ok || v.Referrers() == nil {
+				continue
+			}
+			for _, ref := range *v.Referrers() {
+				if ref.Block() != nil && !l.blocks[ref.Block()] {
+					l.liveOut = append(l.liveOut, v)
+					break
+				}
+			}
+		}
+	}
+	l.unrolling = true
+	fr.unrolling = append(fr.unrolling, l)
+	defer func() {
+		l.unrolling = false
+		fr.unrolling = fr.unrolling[:len(fr.unrolling)-1]
+	}()
+	cur := st
+	for it := 0; ; it++ {
+		for _, b := range iter {
+			if b != l.header {
+				delete(fr.ins, b)
+			}
+		}
+		l.backRecs = nil
+		fr.execBlockList(iter, l.header, cur, l)
+		var recs []inEdge
+		for _, r := range l.backRecs {
+			if r.cond.S != "false" {
+				recs = append(recs, r)
+			}
+		}
+		if len(recs) == 0 {
+			return
+		}
+		var conds []*Term
+		var sts []*State
+		for _, r := range recs {
+			conds = append(conds, r.cond)
+			sts = append(sts, r.st)
+		}
+		again := Or(conds...)
+		if !fc.quickSat(again) {
+			return
+		}
+		if it+1 >= maxUnroll {
+			tmp := sts[0].clone()
+			tmp.reach = TTrue
+			fc.oblige(tmp, "unroll-bound", fr.path+fr.loopName(l), Not(again), fc.eng.fset.Position(l.minPos),
+				fmt.Sprintf("loop without invariant has exited after %d unrolled iterations", maxUnroll))
+			return
+		}
+		cur = fc.merge(sts, conds)
+		fr.assignPhis(l.header, recs)
+	}
+}
+func (fr *Frame) nameVal(prefix string, v Val) Val {
+	if v.T != nil {
+		return scalar(fr.fc.sc.Define(prefix, v.T))
+	}
+	out := Val{Fs: make([]Val, len(v.Fs))}
+	for i, f := range v.Fs {
+		out.Fs[i] = fr.nameVal(prefix, f)
+	}
+	return out
 }
 
 func phiName(p *ssa.Phi) string {
@@ -441,16 +597,34 @@ func (fr *Frame) execBlock(b *ssa.BasicBlock, st *State) {
 	fr.out[b] = st
 }
 
-// setEdge records the edge condition; for back edges it checks the loop invariant instead.
+// setEdge records an edge taken from `from` to `to` under cond. Back edges of loops in invariant mode
+// check the invariant instead; back edges of loops being unrolled feed the next iteration.
 func (fr *Frame) setEdge(from, to *ssa.BasicBlock, cond *Term, st *State) {
 	cond = fr.fc.sc.Define("edge", cond)
 	if to.Dominates(from) {
 		if l := fr.loopOf[to]; l != nil {
+			if l.unrolling {
+				l.backRecs = append(l.backRecs, inEdge{from: from, cond: cond, st: st.clone(), phis: fr.phiInputs(from, to)})
+				return
+			}
 			fr.loopBack(l, from, cond, st)
 			return
 		}
 	}
-	fr.edge[[2]int{from.Index, to.Index}] = cond
+	rec := inEdge{from: from, cond: cond, st: st.clone(), phis: fr.phiInputs(from, to)}
+	for _, l := range fr.unrolling {
+		if l.blocks[from] && !l.blocks[to] {
+			if rec.snap == nil {
+				rec.snap = map[ssa.Value]Val{}
+			}
+			for _, v := range l.liveOut {
+				if x, ok := fr.env[v]; ok {
+					rec.snap[v] = x
+				}
+			}
+		}
+	}
+	fr.ins[to] = append(fr.ins[to], rec)
 }
 
 func (fr *Frame) define(v ssa.Value, x Val) {
